@@ -342,3 +342,27 @@ Proof.
   - rewrite <- (bmember_plain_value o V HV). exact H.
   - rewrite <- (bmember_plain_value o _ HT). exact H.
 Qed.
+
+(* the same for the end-to-end value (the scope merge of visit_BoolOp only adds narrowed copies) *)
+Lemma boolop_merge_nw : forall c V o,
+  bmember o (boolop_merge V c) = true -> bmember o V = true \/ bmember o (tested c) = true.
+Proof.
+  induction c; intros V o Hm; simpl in *; try (left; exact Hm).
+  - apply IHc. exact Hm.
+  - rewrite bmember_app in Hm. apply orb_true_iff in Hm. destruct Hm as [Hm|Hm]; [left; exact Hm|].
+    destruct (cond_nw c1) as [H1 _]. unfold narrow, constrain in Hm.
+    destruct (apply_all_nw _ _ o H1 V Hm) as [H|H]; [left; exact H|right; apply bmember_app_l; exact H].
+  - rewrite bmember_app in Hm. apply orb_true_iff in Hm. destruct Hm as [Hm|Hm]; [left; exact Hm|].
+    destruct (cond_nw c1) as [_ H2]. unfold narrow, constrain in Hm.
+    destruct (apply_all_nw _ _ o H2 V Hm) as [H|H]; [left; exact H|right; apply bmember_app_l; exact H].
+Qed.
+
+Theorem narrow_e2e_no_widening : forall V c pol o,
+  member o (narrow_e2e V c pol) = true -> bmember o V = true \/ bmember o (tested c) = true.
+Proof.
+  intros V c pol o Hm. apply member_bmember in Hm. unfold narrow_e2e, constrain in Hm.
+  destruct (cond_nw c) as [H1 H2].
+  assert (H : bmember o (boolop_merge V c) = true \/ bmember o (tested c) = true)
+    by (destruct pol; [apply (apply_all_nw _ _ o H1 _ Hm)|apply (apply_all_nw _ _ o H2 _ Hm)]).
+  destruct H as [H|H]; [apply (boolop_merge_nw c V o H)|right; exact H].
+Qed.
